@@ -376,7 +376,7 @@ def main(tier, only_models=None):
         images, lines, parts = validate(run, wd, models, 600 if not run.thorough else 3000, counts, keylens)
         # ---- the specification's writer against MIT Kerberos' credential-cache reader (validates CCacheFormat, not gokrb5)
         import mitcross
-        mc = mitcross.mit_ccache_cross(wd, models, images[:len(models)], 600 if not run.thorough else 6000)
+        mc = mitcross.spec_stage(run, mitcross.mit_ccache_cross, wd, models, images[:len(models)], 600 if not run.thorough else 6000)
         run.extra["spec_vs_mit_reader"] = {k: v for k, v in mc.items() if k != "first"}
         if mc.get("disagreements"):
             vlib.spec_validation_problem(run, "CCacheFormat and MIT's credential-cache reader disagree on %d files: %s" % (mc["disagreements"], mc["first"]))
